@@ -63,9 +63,12 @@ type R struct {
 }
 
 type Case struct {
-	Nodes []N
-	Ways  []W
-	Rels  []R
+	// VersionOnly: the nodes of even-numbered ways without coordinates on their
+	// way nodes carry a version and changeset there (no location).
+	VersionOnly bool
+	Nodes       []N
+	Ways        []W
+	Rels        []R
 	// IDMode maps node and way ids: 0 as is, 1 negative (editor placeholders),
 	// 2 beyond 2^40. Only used when no multipolygon/boundary relation is present
 	// (those name features through the packed 40-bit feature id).
@@ -126,6 +129,10 @@ func (c *Case) build() *osm.OSM {
 			if w.Annotated {
 				wn.Lon, wn.Lat = loc(r)
 				wn.Version = 1
+			} else if c.VersionOnly && w.ID%2 == 0 {
+				// annotated with a version and changeset but no location (as a
+				// history extract may do): the location still comes from the node
+				wn.Version, wn.ChangesetID = 2, 9
 			}
 			x.Nodes = append(x.Nodes, wn)
 		}
@@ -270,6 +277,34 @@ func check(c Case) error {
 		fc3, _ := osmgeojson.Convert(c.build())
 		if j3, _ := json.Marshal(fc3); string(j3) != string(j1) {
 			return harness.Failf("C17/nondeterministic", "a conversion of equal input differs after the caller wrote into the property maps of an earlier result")
+		}
+	}
+	// inline member geometry (Member.Nodes, as Overpass "out geom" delivers it)
+	// stands in for a member way that is absent; for a way that is present in
+	// the data it changes nothing
+	{
+		o4 := c.build()
+		byID := map[osm.WayID]*osm.Way{}
+		for _, w := range o4.Ways {
+			byID[w.ID] = w
+		}
+		added := 0
+		for _, r := range o4.Relations {
+			for i, m := range r.Members {
+				if w := byID[osm.WayID(m.Ref)]; m.Type == osm.TypeWay && w != nil {
+					r.Members[i].Nodes = append(osm.WayNodes(nil), w.Nodes...)
+					added++
+				}
+			}
+		}
+		if added > 0 {
+			fc4, err := osmgeojson.Convert(o4)
+			if err != nil {
+				return harness.Failf("C17/convert-error", "Convert failed with inline member nodes: %v", err)
+			}
+			if j4, _ := json.Marshal(fc4); string(j4) != string(j1) {
+				return harness.Failf("C17/inline-member-nodes", "giving %d way members whose way is present in the data a copy of the way's nodes as inline geometry changed the result:\n without %s\n with    %s", added, j1, j4)
+			}
 		}
 	}
 
@@ -889,6 +924,7 @@ func genCase(t *rapid.T) Case {
 			}
 		}
 	}
+	c.VersionOnly = rapid.IntRange(0, 2).Draw(t, "versionOnly") == 0
 	return c
 }
 
